@@ -164,6 +164,9 @@ def fam_control(bits, tier):
             yield Case(F, "%s %s do %s %s do i j * pause loop i loop" % (outer + inner), template="do-nest")
             yield Case(F, "2 0 do %s %s do %s %s do i j k loop loop loop" % (outer + inner), template="do-nest3")
     yield Case(F, ": foo 10 5 do 8 6 do 3 0 do i j * k * loop loop loop ; foo", template="do-nest3")
+    # loop indices beyond the 32-bit range (meaningful on the 64-bit machine; the shift is unspecified on 32 bits)
+    yield Case(F, "1 40 lshift dup 2 + swap do i loop", template="do-wide")
+    yield Case(F, "1 40 lshift dup 1+ swap do 1 0 do j loop loop", template="do-wide")
     # begin / until, begin / while / repeat, begin / again
     for n in ("0", "1", "2", "3", ""):
         yield Case(F, "%s begin 1- dup 0 <= until 8" % n, template="until")
@@ -312,7 +315,8 @@ def inputs_for(fmt, tier):
         return prefix_closed_inputs(size, alpha, 1, pats[:7])
     if size <= 2:
         return prefix_closed_inputs(size, alpha, 2 * size, [])
-    return prefix_closed_inputs(size, alpha, 3, item_patterns(size, alpha))
+    pats = item_patterns(size, alpha)
+    return prefix_closed_inputs(size, alpha, 3, pats[::max(1, len(pats) // 17)][:17])
 
 
 def reader_words():
@@ -500,7 +504,7 @@ FAMILIES = {
 }
 # chunks per family (quick, thorough): shards = family x bits x chunk
 CHUNKS = {"arith1": (16, 32), "arith2": (24, 96), "literal": (1, 1), "control": (6, 8), "pause": (2, 2),
-          "read_stack": (8, 32), "read_out": (16, 64), "varint": (8, 32), "seek": (2, 2), "output": (6, 16),
+          "read_stack": (12, 32), "read_out": (40, 96), "varint": (8, 32), "seek": (2, 2), "output": (6, 16),
           "compile": (6, 12)}
 
 
@@ -520,7 +524,7 @@ def configs_for(family, tier, prog_has_outputs):
         return [DEFAULT_CFG, (2, 2, 1, 1.0001)]
     # I/O families
     if tier == "thorough":
-        return [(s, r, o[0], o[1]) for s in CONFIG_STACK for r in (2, 1024) for o in CONFIG_OUT]
+        return [(s, 1024, o[0], o[1]) for s in (1024, 2) for o in CONFIG_OUT] + [(1, 2, 2, 1.5), (1024, 1, 1, 1.0001)]
     cfgs = [(1024, 1024, o[0], o[1]) for o in CONFIG_OUT]
     cfgs += [(2, 1024, 1, 1.0001), (1, 2, 2, 1.5)]
     return cfgs
@@ -582,6 +586,7 @@ class Explorer(object):
         self._ref = None
         self._pending = []
         self._inputs = []
+        self._refcache = {}
 
     # ---- violations
     def violation(self, kind, summary, case, bits, cfg, **sig):
@@ -614,6 +619,7 @@ class Explorer(object):
             return
         has_out = bool(prog and prog.outputs)
         cfgs = configs_for(case.family, self.tier, has_out)
+        self._refcache = {}
         nontrivial = False
         for ci, cfg in enumerate(cfgs):
             res = self.explore_cfg(case, bits, cfg, prog, ref_compile, first=(ci == 0))
@@ -631,7 +637,10 @@ class Explorer(object):
         ref = None
         refseq = None
         ref_status = "ok"
-        if prog is not None:
+        ckey = (id(case), bits, stack_max, rec_max)
+        if prog is not None and ckey in self._refcache:
+            ref, refseq, ref_status = self._refcache[ckey]
+        elif prog is not None:
             ref = R.RefMachine(prog, bits, stack_max, rec_max, budget=4000 if case.family != "control" else 12000)
             try:
                 refseq = self.ref_sequence(ref, inputs)
@@ -641,6 +650,7 @@ class Explorer(object):
                 ref_status = "unspecified: " + str(e)
             except KeyError as e:
                 ref_status = "missing input"
+            self._refcache[ckey] = (ref, refseq, ref_status)
         hazards = sorted(ref.hazards) if ref is not None else []
         if hazards:
             kind, payload = isolated(lambda: self.cpp_part(case, bits, cfg, prog, ref_compile, ref, refseq, ref_status, first))
@@ -649,7 +659,8 @@ class Explorer(object):
                 st.outcome("crash")
                 self.violation("crash", "the machine died with %s %s while the reference expects %s" % (
                     kind, payload, self.describe_ref(refseq)), case, bits, cfg, hazard=",".join(hazards),
-                    at=ref.hazard_at, operands=case.meta.get("operands"))
+                    at=ref.hazard_at, operands=case.meta.get("operands"),
+                    marks=",".join(sorted(ref.marks | self.derived_marks(ref, bits))))
                 return True
             viols, counters, outcomes, nontrivial = payload
             for v in viols:
@@ -688,8 +699,27 @@ class Explorer(object):
 
     def flag(self, kind, summary, case, bits, cfg, **sig):
         if self._ref is not None and "marks" not in sig:
-            sig["marks"] = ",".join(sorted(self._ref.marks))
+            sig["marks"] = ",".join(sorted(self._ref.marks | self.derived_marks(self._ref, bits)))
         self._pending.append(((kind, summary, case, bits, cfg), sig))
+
+    @staticmethod
+    def derived_marks(ref, bits):
+        """Marks computed by the harness from the reference's event log, used only to attribute violations to
+        known findings whose effect can surface at a later word than the one that is wrong."""
+        out = set()
+        hi = (1 << (bits - 1)) - 1
+        lo = -hi - 1
+        for tag, pre, _, _, _ in ref.evlog:
+            if tag in ("mod", "/mod") and len(pre) >= 2:
+                a, b = pre[-2], pre[-1]
+                if b != 0 and not (a == lo and b == -1):
+                    r = abs(a) % abs(b)
+                    r = -r if a < 0 else r
+                    if not (lo <= b + r <= hi):
+                        out.add("mod-overflow")
+            elif tag == "abs" and pre and not (-(1 << 31) <= pre[-1] < (1 << 31)):
+                out.add("abs-beyond-int32")
+        return out
 
     # ---- reference helpers
     def ref_sequence(self, ref, inputs):
@@ -942,10 +972,30 @@ class Explorer(object):
     def schedules(self, case, bits, cfg, m, prog, ref, refseq, first):
         st = self.st
         limit = len(refseq) + 3
+        if first:
+            # before begin: step/resume/call answer 'not ready' and change nothing
+            m.reset()
+            before = m.snapshot()
+            got = [m.step(), m.resume()] + ([m.call(prog.def_order[0])] if prog.def_order else [])
+            st.transitions += len(got)
+            if any(e != E["not_ready"] for e in got) or m.snapshot() != before or before[:3] != (0, 1, 0):
+                self.flag("wrong-status", "before begin: step/resume/call returned %s, state %s -> %s" % (
+                    got, before, m.snapshot()), case, bits, cfg, schedule="not-ready", at=None)
         # run ; resume*
         cseq = self.cpp_sequence(m, "run", limit)
         diff = self.compare_sequences(case, bits, cfg, "run", cseq, refseq, ref)
         run_ok = diff is None
+        if first and cseq[-1][0] != 0:
+            # what the Python binding raises for this end state
+            err = cseq[-1][0]
+            try:
+                m.maybe_throw(err)
+                self.flag("wrong-status", "maybe_throw did not raise for %s" % ERRORS[err], case, bits, cfg,
+                          schedule="run", at="maybe_throw")
+            except akb.BridgeError as e:
+                if e.cls != "ValueError" or ("'%s'" % ERRORS[err].replace("_", " ")) not in e.msg:
+                    self.flag("wrong-status", "maybe_throw for %s raised %s: %s" % (ERRORS[err], e.cls, e.msg[:120]),
+                              case, bits, cfg, schedule="run", at="maybe_throw")
         # begin ; resume*   (the Python binding's run)
         cseq2 = self.cpp_sequence(m, "begin", limit)
         if [(e, s) for e, s, _ in cseq2] != [(e, s) for e, s, _ in cseq]:
@@ -986,6 +1036,8 @@ class Explorer(object):
         if nsteps > 1 and step_ok:
             if self.tier == "thorough":
                 ks = list(range(1, min(nsteps, 48)))
+            elif not first:
+                ks = [max(1, nsteps // 2)]
             elif nsteps <= 10:
                 ks = list(range(1, nsteps))
             else:
@@ -1259,7 +1311,7 @@ class C19(runner.Check):
             "(stack, variables, input positions, output dtype/length/bytes, readiness) reached on the real ForthMachine32/64; "
             "transitions = run/resume/step/call segments executed and compared; every state is compared with the reference "
             "interpreter model/refforth.py and with every other schedule path reaching the same instruction count "
-            "(run; begin+resume; begin+step*; begin+step^k+resume* for all k (quick: all k if <=10 steps, else 6 cut points); "
+            "(run; begin+resume; begin+step*; begin+step^k+resume* for all k (quick: on the first configuration all k if <=10 steps else 6 cut points, one cut point on the other configurations); "
             "call(w) for every defined word after begin, at every pause and at the end; decompiled() recompiled). "
             "programs = families arith1 (every built-in word after every 0..3-tuple of the 10 operands), arith2 (every word "
             "pair after reduced operand tuples), literal, control (if/else, do/loop/+loop incl. zero/negative steps and i j k, "
@@ -1285,7 +1337,10 @@ class C19(runner.Check):
 
     def shards(self, tier):
         out = []
-        for fam in self.families(tier):
+        # the most expensive families first, so that the pool ends with small shards
+        order = ["read_out", "read_stack", "arith2", "arith1", "varint", "control", "output", "compile", "pause", "seek",
+                 "literal"]
+        for fam in sorted(self.families(tier), key=order.index):
             n = CHUNKS[fam][0 if tier == "quick" else 1]
             for bits in (32, 64):
                 for c in range(n):
